@@ -262,7 +262,7 @@ theorem runRecord_truthful (hinj : Function.Injective E.H) (i : Info) (clean : B
     (hadm : Adm dev i.sig.kind (if clean then emptyC else (r.st.disk i.path).getD emptyC)) :
     wp (runRecord E i clean r.st ins inH iv)
       (fun _ r' => Truthful E dev Γ r'.st ∧ r'.mem = r.mem ∧ AgreeOff i.path r.st r'.st ∧
-        Cooked E dev i.sig i.path inH r'.st)
+        Cooked E dev i.sig i.path inH r'.st ∧ r'.st.inputs i.path = some inH ∧ r'.st.dirStates i.path = some D)
       (fun r' => Truthful E dev Γ r'.st) r := by
   unfold runRecord
   simp only [wp_bind, wp_getSt]
@@ -334,11 +334,11 @@ theorem runRecord_truthful (hinj : Function.Injective E.H) (i : Info) (clean : B
                 rw [this] at h1; exact (Option.some.inj h1).symm
               subst hcc
               exact ⟨c', h1, by simp [St.setResult, St.setVid, St.setInputs], h2⟩
-            refine ⟨?_, hmem, hagree, hcooked⟩
-            apply truthful_of_agree h hagree
-            have hl := h i.path
             have hDf : (((r3.st.setResult i.path (.hash (E.H c))).setVid i.path (iv r3.st)).setInputs i.path inH).dirStates i.path = some D := by
               rw [hst]; simpa [St.setResult, St.setVid, St.setInputs, St.setDisk, St.forge, St.delInputs] using hD
+            refine ⟨?_, hmem, hagree, hcooked, by simp [St.setInputs], hDf⟩
+            apply truthful_of_agree h hagree
+            have hl := h i.path
             constructor
             · intro hq; simp [St.setResult, St.setVid, St.setInputs, hd3] at hq
             · intro hh hq
@@ -426,7 +426,9 @@ theorem cookBuild_truthful (hfix : Consts.C01.buildPruneInvalidatesFirst = true)
     (r : Run) (h : Truthful E dev Γ r.st) :
     wp (cookBuild E cfg i ds)
       (fun _ r' => Truthful E dev Γ r'.st ∧ r'.mem = r.mem ∧ AgreeOff i.path r.st r'.st ∧
-        Cooked E dev i.sig i.path (inputHashes r.st i ds) r'.st)
+        Cooked E dev i.sig i.path (inputHashes r.st i ds) r'.st ∧
+        r'.st.inputs i.path = some (inputHashes r.st i ds) ∧
+        r'.st.dirStates i.path = some (DirState.build (ivid r.st i ds) (i.execPath :: ds.map fun d => d.info.execPath)))
       (fun r' => Truthful E dev Γ r'.st) r := by
   unfold cookBuild
   simp only [wp_bind, wp_getSt]
@@ -444,7 +446,9 @@ theorem cookBuild_truthful (hfix : Consts.C01.buildPruneInvalidatesFirst = true)
             whenM (!cfg.cleanBuild) (prim (.setResult i.path (hashOf E st i.path)) (fun s => s.setResult i.path (hashOf E st i.path)))
           else runRecord E i cfg.cleanBuild st ds inH (fun _ => ivid r.st i ds))
         (fun _ r' => Truthful E dev Γ r'.st ∧ r'.mem = r.mem ∧ AgreeOff i.path r.st r'.st ∧
-          Cooked E dev i.sig i.path (inputHashes r.st i ds) r'.st)
+          Cooked E dev i.sig i.path (inputHashes r.st i ds) r'.st ∧
+          r'.st.inputs i.path = some (inputHashes r.st i ds) ∧
+          r'.st.dirStates i.path = some (DirState.build (ivid r.st i ds) (i.execPath :: ds.map fun d => d.info.execPath)))
         (fun r' => Truthful E dev Γ r'.st) r2 := by
     intro r2 h2 hm2 ha2 hd2 hD2
     simp only [wp_bind, wp_getSt]
@@ -471,7 +475,7 @@ theorem cookBuild_truthful (hfix : Consts.C01.buildPruneInvalidatesFirst = true)
       cases hcb : cfg.cleanBuild with
       | true =>
         simp only [Bool.not_true, wp_whenM_false]
-        refine ⟨h2, hm2, ha2, ?_⟩
+        refine ⟨h2, hm2, ha2, ?_, by rw [← hin2]; exact hinp, hD2⟩
         intro cs hcs
         rw [← hin2] at hcs
         obtain ⟨c, hdc, hpc⟩ := hcl cs hcs
@@ -483,7 +487,8 @@ theorem cookBuild_truthful (hfix : Consts.C01.buildPruneInvalidatesFirst = true)
         · exact h2
         · intro k l
           simp only [hashOf, hc2, Option.getD_some]
-          refine ⟨?_, hm2, ha2.trans (agree_setResult _ _ _), ?_⟩
+          refine ⟨?_, hm2, ha2.trans (agree_setResult _ _ _), ?_, by rw [← hin2]; simpa [St.setResult] using hinp,
+            by simpa [St.setResult] using hD2⟩
           · apply truthful_rehash _ _ h2 hc2
             intro scms v bo hq; rw [hD2] at hq; cases hq
           · intro cs hcs
@@ -498,8 +503,8 @@ theorem cookBuild_truthful (hfix : Consts.C01.buildPruneInvalidatesFirst = true)
           | true => exact Or.inl (by simp)
           | false => exact Or.inr (Or.inr ⟨hk, hdev hcb⟩))
       refine wp_mono _ _ _ _ _ _ ?_ (fun _ hx => hx) this
-      intro _ r3 ⟨h3, hm3, ha3, hck3⟩
-      exact ⟨h3, hm3.trans hm2, ha2.trans ha3, by rw [← hin2]; exact hck3⟩
+      intro _ r3 ⟨h3, hm3, ha3, hck3, hi3, hd3⟩
+      exact ⟨h3, hm3.trans hm2, ha2.trans ha3, by rw [← hin2]; exact hck3, by rw [← hin2]; exact hi3, hd3⟩
   simp only [hp.dirStates]
   split
   · -- created or digest changed: prune and reset
@@ -604,7 +609,9 @@ theorem cookPackage_truthful (hinj : Function.Injective E.H) (cfg : Cfg) (i : In
     (hshape' : r.st.disk i.path = none ∨ r.st.dirStates i.path = some (DirState.pkg (.mk i.sig (vids ds)))) :
     wp (cookPackage E cfg i pre ds)
       (fun _ r' => Truthful E dev Γ r'.st ∧ r'.mem = r.mem ∧ AgreeOff i.path r.st r'.st ∧
-        Cooked E dev i.sig i.path (inputHashes r.st i (pre ++ ds)) r'.st)
+        Cooked E dev i.sig i.path (inputHashes r.st i (pre ++ ds)) r'.st ∧
+        r'.st.inputs i.path = some (inputHashes r.st i (pre ++ ds)) ∧
+        r'.st.dirStates i.path = some (DirState.pkg (.mk i.sig (vids ds))))
       (fun r' => Truthful E dev Γ r'.st) r := by
   unfold cookPackage
   simp only [wp_bind, wp_getSt]
@@ -636,7 +643,7 @@ theorem cookPackage_truthful (hinj : Function.Injective E.H) (cfg : Cfg) (i : In
           rw [hc1] at hd'; cases hd'; rw [hh']
         | forged t => rw [hr] at hish; exact absurd hish (by simp [isHash])
         | fp q => rw [hr] at hish; exact absurd hish (by simp [isHash])
-    refine ⟨hp.truthful, hp.mem, hp.agree, ?_⟩
+    refine ⟨hp.truthful, hp.mem, hp.agree, ?_, by rw [← hin1]; exact hinp, hD⟩
     intro cs hcs
     rw [← hin1] at hcs
     obtain ⟨c, hdc, hpc⟩ := hcl cs hcs
@@ -646,8 +653,8 @@ theorem cookPackage_truthful (hinj : Function.Injective E.H) (cfg : Cfg) (i : In
       (fun st2 => ivid st2 i ds) r1 hp.truthful (strip_inputHashes _ _ _) ⟨c1, hc1⟩ _ hD (by simp [DSig, Vid.sig])
       (Or.inl (by simp))
     refine wp_mono _ _ _ _ _ _ ?_ (fun _ hx => hx) this
-    intro _ r3 ⟨h3, hm3, ha3, hck3⟩
-    exact ⟨h3, hm3.trans hp.mem, hp.agree.trans ha3, by rw [← hin1]; exact hck3⟩
+    intro _ r3 ⟨h3, hm3, ha3, hck3, hi3, hd3⟩
+    exact ⟨h3, hm3.trans hp.mem, hp.agree.trans ha3, by rw [← hin1]; exact hck3, by rw [← hin1]; exact hi3, hd3⟩
 
 /-! ## `_cookCheckoutStep` -/
 
@@ -936,6 +943,11 @@ theorem strip_resultsOf {st : St} (h : Truthful E dev Γ st) (ds : List Step) :
 
 theorem hashes_length (cs : List Content) : (hashes E cs).length = cs.length := by simp [hashes]
 
+/-- what is recorded for a checkout step that is up to date -/
+def CoRecorded (E : Env) (i : Info) (ds : List Step) (inH : Inputs) (st' : St) : Prop :=
+  (∃ bo, st'.dirStates i.path = some (.co i.scms (some (Vid.mk i.sig (vids ds))) bo)) ∧
+  st'.inputs i.path = some inH ∧ st'.results i.path = some (hashOf E st' i.path)
+
 /-- an indeterministic checkout has just been run with the current external world -/
 def RanNow (E : Env) (i : Info) (inH : Inputs) (st' : St) : Prop :=
   i.det = false → ∀ cs, strip inH = hashes E cs →
@@ -946,7 +958,8 @@ theorem cookCheckout_truthful (hinj : Function.Injective E.H) (cfg : Cfg) (i : I
     (r : Run) (h : Truthful E dev Γ r.st) :
     wp (cookCheckout E cfg i ds)
       (fun _ r' => Truthful E dev Γ r'.st ∧ r'.mem = r.mem ∧ AgreeOff i.path r.st r'.st ∧
-        Cooked E dev i.sig i.path (resultsOf r.st ds) r'.st ∧ RanNow E i (resultsOf r.st ds) r'.st)
+        Cooked E dev i.sig i.path (resultsOf r.st ds) r'.st ∧ RanNow E i (resultsOf r.st ds) r'.st ∧
+        CoRecorded E i ds (resultsOf r.st ds) r'.st)
       (fun r' => Truthful E dev Γ r'.st) r := by
   unfold cookCheckout
   simp only [wp_bind, wp_getSt]
@@ -959,7 +972,8 @@ theorem cookCheckout_truthful (hinj : Function.Injective E.H) (cfg : Cfg) (i : I
       wp (whenM (decide (some (hashOf E r3.st i.path) ≠ oh) || cfg.force)
             (prim (.setResult i.path (hashOf E r3.st i.path)) (fun s => s.setResult i.path (hashOf E r3.st i.path))))
         (fun _ r' => Truthful E dev Γ r'.st ∧ r'.mem = r.mem ∧ AgreeOff i.path r.st r'.st ∧
-          Cooked E dev i.sig i.path (resultsOf r.st ds) r'.st ∧ RanNow E i (resultsOf r.st ds) r'.st)
+          Cooked E dev i.sig i.path (resultsOf r.st ds) r'.st ∧ RanNow E i (resultsOf r.st ds) r'.st ∧
+          CoRecorded E i ds (resultsOf r.st ds) r'.st)
         (fun r' => Truthful E dev Γ r'.st) r3 := by
     intro oh r3 st0 mem0 hp3 hm0 ha0
     have hin0 : resultsOf st0 ds = resultsOf r.st ds := resultsOf_agree ha0 ds hacyc
@@ -976,7 +990,10 @@ theorem cookCheckout_truthful (hinj : Function.Injective E.H) (cfg : Cfg) (i : I
     · exact hp3.truthful
     · intro k l
       simp only [hashOf, hc3, Option.getD_some]
-      refine ⟨?_, hp3.mem.trans hm0, (ha0.trans hp3.agree).trans (agree_setResult _ _ _), ?_, ?_⟩
+      refine ⟨?_, hp3.mem.trans hm0, (ha0.trans hp3.agree).trans (agree_setResult _ _ _), ?_, ?_, ?_⟩
+      rotate_left 3
+      · exact ⟨⟨bo3, by simpa [St.setResult] using hd3⟩, by rw [← hin0]; simpa [St.setResult] using hp3.inputs,
+          by simp [St.setResult, hashOf, hc3]⟩
       rotate_left 2
       · intro _ cs hcs
         rw [← hin0] at hcs
@@ -1063,7 +1080,10 @@ theorem cookCheckout_truthful (hinj : Function.Injective E.H) (cfg : Cfg) (i : I
         · exact hp.truthful
         · intro k l
           simp only [hashOf, hc1, Option.getD_some]
-          refine ⟨?_, hp.mem, hp.agree.trans (agree_setResult _ _ _), ?_, ?_⟩
+          refine ⟨?_, hp.mem, hp.agree.trans (agree_setResult _ _ _), ?_, ?_, ?_⟩
+          rotate_left 3
+          · exact ⟨⟨bo, by simpa [St.setResult] using hdir⟩, by rw [← hin1]; simpa [St.setResult] using hin,
+              by simp [St.setResult, hashOf, hc1]⟩
           rotate_left 2
           · intro hnd; rw [hnd] at hdet; simp at hdet
           · apply truthful_co_setResult _ _ hp.truthful hc1 ⟨_, _, _, hdir⟩
@@ -1079,11 +1099,6 @@ theorem cookCheckout_truthful (hinj : Function.Injective E.H) (cfg : Cfg) (i : I
             rw [← hin1] at hcs
             exact ⟨c1, by simpa [St.setResult] using hc1, by simp [St.setResult], hprod cs hcs⟩
       · intro hcond
-        refine ⟨hp.truthful, hp.mem, hp.agree, ?_, ?_⟩
-        rotate_left 1
-        · intro hnd; rw [hnd] at hdet; simp at hdet
-        intro cs hcs
-        rw [← hin1] at hcs
         have hres : r1.st.results i.path = some (.hash (E.H c1)) := by
           have : decide (some (hashOf E r1.st i.path) ≠ r1.st.results i.path) = false := by
             cases hd' : decide (some (hashOf E r1.st i.path) ≠ r1.st.results i.path) with
@@ -1092,6 +1107,11 @@ theorem cookCheckout_truthful (hinj : Function.Injective E.H) (cfg : Cfg) (i : I
           have := of_decide_eq_false this
           simp only [ne_eq, Classical.not_not] at this
           rw [← this]; simp [hashOf, hc1]
-        exact ⟨c1, hc1, hres, hprod cs hcs⟩
+        refine ⟨hp.truthful, hp.mem, hp.agree, ?_, ?_, ?_⟩
+        · intro cs hcs
+          rw [← hin1] at hcs
+          exact ⟨c1, hc1, hres, hprod cs hcs⟩
+        · intro hnd; rw [hnd] at hdet; simp at hdet
+        · exact ⟨⟨bo, hdir⟩, by rw [← hin1]; exact hin, by rw [hres]; simp [hashOf, hc1]⟩
 
 end Builder
